@@ -194,8 +194,9 @@ def bind_pattern(pat, nf, env):
     elif k in ("Ref", "Box", "Deref"):
         bind_pattern(pat["pat"], nf, env)
     elif k == "Tuple":
+        literal = nf[0] == "tuple" and len(nf[1]) == len(pat["pats"])
         for i, p in enumerate(pat["pats"]):
-            bind_pattern(p, ("field", nf, str(i)), env)
+            bind_pattern(p, nf[1][i] if literal else ("field", nf, str(i)), env)
     elif k == "TupleStruct":
         vp = (pat["path"].get("path") or "?").rsplit("::", 1)[-1]
         pats = pat["pats"]
@@ -476,8 +477,22 @@ class NF:
             else:
                 h = fa["holes"][p[1]]
                 a = H.strip(h["arg"])
-                parts.append(("hole", self.nf(a, env), h["trait"], (a.get("ty") or "?")))
-        return ("format", tuple(parts))
+                v = self.nf(a, env)
+                if v[0] == "lit" and isinstance(v[1], str) and h["trait"] == "display" and not h.get("spec") and "str" in (a.get("ty") or ""):
+                    # Display of a string literal is the literal: part of the template text
+                    if parts and parts[-1][0] == "lit":
+                        parts[-1] = ("lit", parts[-1][1] + v[1])
+                    else:
+                        parts.append(("lit", v[1]))
+                    continue
+                parts.append(("hole", v, h["trait"], (a.get("ty") or "?")))
+        merged = []
+        for p in parts:
+            if p[0] == "lit" and merged and merged[-1][0] == "lit":
+                merged[-1] = ("lit", merged[-1][1] + p[1])
+            else:
+                merged.append(p)
+        return ("format", tuple(merged))
 
     def closure_apply(self, clo, arg_nfs, env):
         """Normal form of the closure body with its parameters bound to arg_nfs."""
@@ -710,6 +725,13 @@ class Extractor:
             return
         if k == "For":
             it = self.NF.nf(e["iter"], env)
+            if it[0] == "tuple":
+                # a loop over an array literal is the sequence of its bodies, one per element: no repetition in the grammar
+                for item in it[1]:
+                    env_b = env.child()
+                    bind_pattern(e["pat"], item, env_b)
+                    self._visit(fn, e["body"], env_b, ctx, out, "stmt")
+                return
             env_b = env.child()
             bind_pattern(e["pat"], ("elem", it), env_b)
             self._visit(fn, e["body"], env_b, ctx + (("star", it),), out, "stmt")
@@ -856,9 +878,15 @@ class EnvWalker:
         elif k == "For":
             self._w(e["iter"], env, cb, ctx)
             it = N.nf(e["iter"], env)
-            env_b = env.child()
-            bind_pattern(e["pat"], ("elem", it), env_b)
-            self._w(e["body"], env_b, cb, ctx + (("star", it),))
+            if it[0] == "tuple":
+                for item in it[1]:
+                    env_b = env.child()
+                    bind_pattern(e["pat"], item, env_b)
+                    self._w(e["body"], env_b, cb, ctx)
+            else:
+                env_b = env.child()
+                bind_pattern(e["pat"], ("elem", it), env_b)
+                self._w(e["body"], env_b, cb, ctx + (("star", it),))
         elif k == "Loop":
             self._block(e["body"], env, cb, ctx + (("star", ("unknown", "loop")),))
         elif k == "MethodCall":
